@@ -149,13 +149,16 @@ var ownSeeds = map[string][]string{
 		"HTTP/1.1 101 Switching Protocols\r\nConnection: Upgrade\r\n\r\nraw",
 		"HTTP/1.1 200 OK\r\nSet-Cookie: a=b; Path=/\r\nContent-Length: 0\r\n\r\n",
 	},
-	"cookie": {"a=b", "a=b; Path=/; Domain=x.y; Max-Age=10; Secure; HttpOnly; SameSite=Lax", "k=\"quoted\"; Expires=Tue, 10 Nov 2009 23:00:00 GMT",
+	"cookie": {"=", "a=", "=b", ";", ";;", "; ;", "a=b;", "a=b; ", "a=b; Path", "a=b; Path=", "a=b; Max-Age", "a=b; Max-Age=", "a=b; Max-Age=x", "a=b; Max-Age=99999999999999999999",
+		"a=b; Expires", "a=b; Expires=", "a=b; Expires=Tue", "a=b; SameSite", "a=b; SameSite=", "a=b; SameSite=x", "a=b; Domain=", "a=b; Secure=1", "a=\"", "a=\"b", "\"=\"", "a=b; =", "a=b;=;=",
+		"a=b; Partitioned=", "a=b; HttpOnl", " ", "a", "a=b; path=/; path=/x; PATH", "a=b; max-age=-0", "a=b; expires=Thu, 01 Jan 1970 00:00:00 GM", "a=b", "a=b; Path=/; Domain=x.y; Max-Age=10; Secure; HttpOnly; SameSite=Lax", "k=\"quoted\"; Expires=Tue, 10 Nov 2009 23:00:00 GMT",
 		"=novalue", ";;;", "a=b; Max-Age=-1; SameSite=None; Partitioned", "a=b; expires=bad"},
 	"uri": {"http://foobar.com/aaa/bb?cc#dd", "//host/p", "/a/../b/./c?x=1#f", "http://[::1]:80/x", "http://user:pw@host:99/p%20q?a=%zz", "*",
 		"http://[fe80::1%25en0]/", "https://host\\path", "/%2e%2e/%2F", "?q", "#f", "a b"},
-	"args":   {"a=b&c=d", "a=%20+%zz&&=x&y", "a&b&c", "%", "a=%", "a=%4", "k=v;k2=v2", "=", "&&&"},
-	"range":  {"bytes=0-10", "bytes=-5", "bytes=5-", "bytes=10-5", "bytes=a-b", "bytes=99999999999999999999-", "bits=0-1", "bytes=0-0,1-2", "bytes=-", "bytes="},
-	"params": {"application/json; v=1; foo=bar; q=0.938; param=\"big fox\"", "a; b=", "a; b=\"", "a; b=\"\\", "a;b=c;", ";=;", "text/plain; foo=\"\\\"\\'\"", "x; y=\"z\"w"},
+	"args":  {"a=b&c=d", "a=%20+%zz&&=x&y", "a&b&c", "%", "a=%", "a=%4", "k=v;k2=v2", "=", "&&&"},
+	"range": {"bytes=0-10", "bytes=-5", "bytes=5-", "bytes=10-5", "bytes=a-b", "bytes=99999999999999999999-", "bits=0-1", "bytes=0-0,1-2", "bytes=-", "bytes="},
+	"params": {"a;b=", "a; b=c", "a; b=\"", "a; b=\"c", "a; b=\"c\\", "a; b=\"\\", "a; b=\"c\\\"", "a; b=\"c\" ", "a; b=\"c\";", "a; b", "a;", "a; ", "a;  b=c", ";", "; =", ";b=", ";=c", "a; b=c; d=",
+		"a; b=c; d=\"", "a; b=\"\";c=", "a;b=c\\", "a; b==", "a; b=\x01", "a; \"b\"=c", "a; b=c d", "a; b=\"c\"d; e=f", "application/json; v=1; foo=bar; q=0.938; param=\"big fox\"", "a; b=", "a; b=\"", "a; b=\"\\", "a;b=c;", ";=;", "text/plain; foo=\"\\\"\\'\"", "x; y=\"z\"w"},
 	"multipart": {"--XX\r\nContent-Disposition: form-data; name=\"a\"\r\n\r\nv\r\n--XX--\r\n",
 		"--XX\r\nContent-Disposition: form-data; name=\"f\"; filename=\"x.txt\"\r\nContent-Type: text/plain\r\n\r\ndata\r\n--XX\r\nContent-Disposition: form-data; name=\"b\"\r\n\r\n2\r\n--XX--\r\n",
 		"--XX--\r\n", "--XX\r\n\r\n", "junk"},
@@ -194,7 +197,7 @@ func initSeeds() {
 var alphabet = []byte(" \t\r\n:;,=\"\\%&?#/-+.0123456789abcdefxyzABCXYZ\x00\x01\x7f\x80\xff")
 var tokens = []string{"\r\n", "\r\n\r\n", "\n", "\n\n", " ", "\t", "Content-Length: ", "Transfer-Encoding: chunked\r\n", "0\r\n\r\n", "Host: h\r\n",
 	"Trailer: ", "Connection: close\r\n", "Expect: 100-continue\r\n", "ffffffffffffffff", "7fffffffffffffff\r\n", "ffffffffffffffff\r\n", "8000000000000000\r\n", "fffffffffffffff\r\n", "-1", "99999999999999999999", "9223372036854775807", "9223372036854775808", "18446744073709551616",
-	"%", "%2", "%zz", "[", "]", "@", "--XX", "--XX--", "boundary=", "; ", "=\"", "\\\"", "bytes=", "HTTP/1.1", "HTTP/1.0"}
+	"%", "%2", "%zz", "[", "]", "[fe80:]", "[::1]", ":]", "::", ":%25", "Host: [1:2:]\r\n", "@", "--XX", "--XX--", "boundary=", "; ", "=\"", "\\\"", "bytes=", "HTTP/1.1", "HTTP/1.0"}
 
 func mutate(r *rand.Rand, b []byte) []byte {
 	out := append([]byte(nil), b...)
@@ -283,9 +286,126 @@ func boundaryMsgs(resp bool) [][]byte {
 
 var boundaryLimits = []int{1, 64, 4096}
 
+// ---------- bracketed IPv6 host shapes (RFC 4291 texts with the counts around the limits) ----------
+
+var v6Dict = []string{
+	"[::1]", "[::]", "[fe80::1]", "[1:2:3:4:5:6:7:8]", "[fe80:]", "[1:2:3:4:5:6:7:]", "[2001:db8:]:8080", "[fe80:%25en0]", "[1:::1.2.3.4]",
+	"[:1]", "[:]", "[1:]", "[:1:2]", "[1:2:]", "[::1:]", "[1::]", "[1::2::3]", "[::1::]", "[:::]", "[::::]", "[1:2:3:4:5:6:7:8:9]", "[1:2:3:4:5:6:7]",
+	"[1:2:3:4:5:6:7::]", "[::1:2:3:4:5:6:7:8]", "[12345::]", "[::12345]", "[0000:0000:0000:0000:0000:0000:0000:0000]", "[::g]", "[::ffff:1.2.3.4]",
+	"[::1.2.3.4]", "[::1.2.3]", "[::1.2.3.4.5]", "[::256.1.1.1]", "[::01.2.3.4]", "[::1.2.3.4.]", "[::.]", "[1:2:3:4:5:6:7.7.7.7]", "[::1.2.3.4:]",
+	"[1:2:3:4:5:6:1.2.3.4]", "[1:2:3:4:5:6:7:1.2.3.4]", "[fe80::1%en0]", "[fe80::1%25en0]", "[fe80::1%]", "[fe80::1%25]", "[%25en0]", "[%]", "[::%%]",
+	"[fe80::1%a]b]", "[::1]:80", "[::1]:", "[::1]:8a", "[::1]:80]", "[::1]]", "[::1]x", "[::1", "::1]", "[", "]", "[]", "[]:80", "[[::1]]", "[::1][::1]",
+	"[::1 ]", "[ ::1]", "[1:2:3:4:5:6:7:8%z]:9", "[:", "[::", "[1:", "[1:2:3:4:5:6:7:8:", "[a:b:c:d:e:f:0:", "[::1.", "[::1.2.3.", "[fe80:%", "[fe80::%2", "[fe80::%25",
+}
+
+func v6Group(r *rand.Rand) string {
+	n := 1 + r.Intn(4)
+	switch r.Intn(25) {
+	case 0:
+		n = 5
+	case 1:
+		n = 0
+	}
+	b := make([]byte, n)
+	al := "0123456789abcdefABCDEF"
+	for i := range b {
+		b[i] = al[r.Intn(len(al))]
+	}
+	return string(b)
+}
+
+func v6Quad(r *rand.Rand) string {
+	n := hlib.Pick(r, []int{4, 4, 4, 4, 3, 5})
+	parts := make([]string, n)
+	for i := range parts {
+		parts[i] = hlib.Pick(r, []string{"0", "1", "25", "255", "256", "01", "", "300", "9"})
+	}
+	return strings.Join(parts, ".")
+}
+
+func genV6(r *rand.Rand) []byte {
+	if r.Intn(3) == 0 {
+		return []byte(hlib.Pick(r, v6Dict))
+	}
+	grp := func(n int) string {
+		g := make([]string, n)
+		for i := range g {
+			g[i] = v6Group(r)
+		}
+		return strings.Join(g, ":")
+	}
+	var addr string
+	if r.Intn(2) == 0 {
+		addr = grp(hlib.Pick(r, []int{8, 8, 7, 9, 6, 1}))
+	} else {
+		tot := r.Intn(9)
+		l := r.Intn(tot + 1)
+		addr = grp(l) + "::" + grp(tot-l)
+	}
+	if r.Intn(3) == 0 {
+		if !strings.HasSuffix(addr, ":") && addr != "" {
+			addr += ":"
+		}
+		addr += v6Quad(r)
+	}
+	switch r.Intn(10) {
+	case 0:
+		addr = ":" + addr
+	case 1, 2:
+		addr += ":"
+	case 3:
+		addr = strings.Replace(addr, "::", ":::", 1)
+	case 4:
+		addr = strings.Replace(addr, ":", "::", 1)
+	}
+	switch r.Intn(8) {
+	case 0:
+		addr += "%en0"
+	case 1:
+		addr += "%"
+	case 2:
+		addr += "%25en0"
+	case 3:
+		addr += "%25"
+	}
+	host := "[" + addr + "]"
+	switch r.Intn(10) {
+	case 0:
+		host += ":80"
+	case 1:
+		host += ":"
+	case 2:
+		host += hlib.Pick(r, []string{"]", "x", "]:80", ":8a", ":80]", " ", "[", ":-1"})
+	case 3:
+		host = host[:len(host)-1]
+	}
+	b := []byte(host)
+	if r.Intn(6) == 0 {
+		b = hlib.Mutate(r, b, 1+r.Intn(2), []byte(":.%][0123456789abcdefg "))
+	}
+	return b
+}
+
+// hostCase wraps a host as a URI ("uri") or as the Host header of an otherwise valid request ("requri").
+func hostCase(r *rand.Rand, host []byte, src string) desc {
+	switch r.Intn(4) {
+	case 0:
+		return desc{Op: "uri", In: []byte("http://" + string(host) + "/p?q=1#f"), Src: src}
+	case 1:
+		return desc{Op: "uri", In: []byte("/p?q=1"), Host: host, Src: src}
+	case 2:
+		return desc{Op: "uri", In: []byte("//" + string(host)), Src: src}
+	default:
+		return desc{Op: "requri", In: []byte("GET /p?q=1 HTTP/1.1\r\nHost: " + string(host) + "\r\n\r\n"), Max: 1024, Src: src}
+	}
+}
+
 var valOps = []string{"cookie", "uri", "args", "range", "params", "multipart"}
 
 func gen(r *rand.Rand, i int) desc {
+	if r.Intn(8) == 0 {
+		return hostCase(r, genV6(r), "v6")
+	}
 	var d desc
 	switch x := r.Intn(20); {
 	case x < 4:
@@ -354,6 +474,16 @@ func descFor(r *rand.Rand, d desc, boundary bool) desc {
 
 func corpus() []desc {
 	var c []desc
+	for _, h := range v6Dict {
+		for _, h2 := range []string{h, strings.Replace(h, "%", "%25", 1)} {
+			c = append(c, desc{Op: "uri", In: []byte("http://" + h2 + "/p?q=1#f"), Src: "v6"})
+			c = append(c, desc{Op: "uri", In: []byte("/p"), Host: []byte(h2), Src: "v6"})
+			c = append(c, desc{Op: "uri", In: []byte("//" + h2), Src: "v6"})
+			c = append(c, desc{Op: "uri", In: []byte("https://u:p@" + h2 + ":443/"), Src: "v6"})
+			c = append(c, desc{Op: "requri", In: []byte("GET /p?q=1 HTTP/1.1\r\nHost: " + h2 + "\r\n\r\n"), Max: 1024, Src: "v6"})
+			c = append(c, desc{Op: "requri", In: []byte("GET http://" + h2 + "/abs HTTP/1.1\r\nHost: x\r\n\r\n"), Max: 1024, Src: "v6"})
+		}
+	}
 	for _, resp := range []bool{false, true} {
 		op := "req"
 		if resp {
@@ -407,6 +537,7 @@ func readMsg(resp bool, in []byte, max, bsize, chunk int) (o msgObs) {
 			err = m.ReadLimitBody(br, max)
 			if err == nil {
 				o.bodyLen = len(m.Body())
+				_ = m.URI().String() // the Host header and request target go through URI parsing
 			}
 		}
 	})
@@ -533,6 +664,17 @@ func run(d desc) hlib.Case {
 		case "params":
 			code = 5
 			p, t = guarded(func() { fasthttp.VisitHeaderParams(d.In, func(k, v []byte) bool { return true }) })
+		case "requri":
+			code = 7
+			p, t = guarded(func() {
+				var req fasthttp.Request
+				if err := req.ReadLimitBody(bufio.NewReader(bytes.NewReader(d.In)), 1024); err == nil {
+					u := req.URI()
+					_ = u.String()
+					_ = u.Host()
+					_ = req.Host()
+				}
+			})
 		case "multipart":
 			code = 6
 			p, t = guarded(func() {
